@@ -256,22 +256,33 @@ def tlc(specdir, module, cfg, workers=8, timeout=600, simulate=None, extra_files
         cmd += (extra_args or [])
         cmd.append(module + ".tla")
         t0 = time.time()
-        try:
-            p = subprocess.run(cmd, cwd=scratch, timeout=timeout, stdout=subprocess.PIPE,
-                               stderr=subprocess.STDOUT, text=True)
-        except subprocess.TimeoutExpired:
-            raise HarnessError("TLC timeout (%ss) on %s/%s" % (timeout, module, cfg))
-        res.wall = time.time() - t0
-        res.out = p.stdout
-        res.rc = p.returncode
-        _parse_tlc(res)
+        for attempt in (1, 2):
+            try:
+                p = subprocess.run(cmd, cwd=scratch, timeout=timeout, stdout=subprocess.PIPE,
+                                   stderr=subprocess.STDOUT, text=True)
+            except subprocess.TimeoutExpired:
+                raise HarnessError("TLC timeout (%ss) on %s/%s" % (timeout, module, cfg))
+            res.wall = time.time() - t0
+            res.out = p.stdout
+            res.rc = p.returncode
+            _parse_tlc(res)
+            # an abnormal JVM/TLC exit without any verdict or spec error (seen once on a busy machine: rc=255 in the
+            # middle of the search) is retried once; a second failure is a harness error as before
+            if attempt == 1 and res.rc not in (0,) and res.violated is None and "Error:" not in res.out:
+                log("TLC exited rc=%s without a verdict on %s/%s; retrying once" % (res.rc, module, cfg))
+                shutil.rmtree(os.path.join(scratch, "md"), ignore_errors=True)
+                res = TLCResult()
+                continue
+            break
         if keep:
             os.makedirs(keep, exist_ok=True)
             open(os.path.join(keep, "tlc-%s-%s.out" % (module, os.path.basename(cfg))), "w").write(res.out)
         if "java.lang.OutOfMemoryError" in res.out or "StackOverflowError" in res.out:
             raise HarnessError("TLC resource failure on %s/%s:\n%s" % (module, cfg, res.out[-2000:]))
         if res.rc != 0 and res.violated is None:
-            raise HarnessError("TLC failed rc=%s on %s/%s:\n%s" % (res.rc, module, cfg, res.out[-3000:]))
+            i = res.out.find("Error")
+            head = res.out[i:i + 2500] if i >= 0 else res.out[:1500]
+            raise HarnessError("TLC failed rc=%s on %s/%s:\n%s\n...\n%s" % (res.rc, module, cfg, head, res.out[-800:]))
         return res
     finally:
         shutil.rmtree(scratch, ignore_errors=True)
